@@ -28,9 +28,9 @@ def run_modules(paths, root='/repo', both=False, jobs=None, only=None):
                 continue
             work.append((p, t.name, root, both))
     jobs = jobs or min(16, max(1, len(work)))
-    if jobs == 1 or len(work) <= 1:
-        return [_run(w) for w in work]
-    with multiprocessing.Pool(jobs) as pool:
+    # every task runs in a process of its own (maxtasksperchild=1): fresh-name counters and solver state then do not depend on
+    # which tasks happened to run before it in the same worker, so a task's queries -- and verdicts -- are reproducible
+    with multiprocessing.Pool(max(1, jobs), maxtasksperchild=1) as pool:
         return pool.map(_run, work, chunksize=1)
 
 
